@@ -154,6 +154,54 @@ def b_seam(ks, lits, compl, tree_free, spell_free=False):
     return build
 
 
+def b_long(ch):
+    """beyond the small scope: expressions of 12 / 40 / 120 operands, nested up to 60 parentheses deep, with a
+    complement every few levels; default spelling (the Boolean function is still over the same few surfaces)"""
+    k = ch.choose('operands', [12, 40, 120], free=True)
+    shape = ch.choose('shape', ['left-nested', 'right-nested', 'balanced', 'flat-union-of-pairs'], free=True)
+    compl_every = ch.choose('complement-every', [0, 5, 2], free=True)
+    lits = ch.choose('literals', [SEAM_LITS, LITS7], free=True)
+    leaves = [lits[(3 * i + i // 7) % len(lits)] for i in range(k)]
+
+    def op(i):
+        return '*' if i % 3 else ':'
+    if shape == 'left-nested':
+        t = leaves[0]
+        for i, l in enumerate(leaves[1:]):
+            t = (op(i), t, l)
+            if compl_every and i % compl_every == compl_every - 1:
+                t = ('#', t)
+    elif shape == 'right-nested':
+        t = leaves[-1]
+        for i, l in enumerate(reversed(leaves[:-1])):
+            t = (op(i), l, t)
+            if compl_every and i % compl_every == compl_every - 1:
+                t = ('#', t)
+    elif shape == 'balanced':
+        level = list(leaves)
+        d = 0
+        while len(level) > 1:
+            nxt = []
+            for i in range(0, len(level) - 1, 2):
+                x = (op(i // 2 + d), level[i], level[i + 1])
+                if compl_every and (i // 2) % compl_every == compl_every - 1:
+                    x = ('#', x)
+                nxt.append(x)
+            if len(level) % 2:
+                nxt.append(level[-1])
+            level = nxt
+            d += 1
+        t = level[0]
+    else:
+        pairs = [('*', leaves[i], leaves[i + 1]) for i in range(0, k - 1, 2)]
+        t = pairs[0]
+        for x in pairs[1:]:
+            t = (':', t, x)
+        if compl_every:
+            t = ('#', t)
+    return SeamState(spell(ch, t, cost_free=False), t)
+
+
 DECK_LITS = [1, -1, 2, -2, 4, -4, ('f', 6, 1), ('f', -6, 4), ('^', 8)]
 
 
@@ -219,6 +267,7 @@ def scenarios(tier):
             Scn('seam-k2-allspell', b_seam([2, 1], [-1, ('^', 8)], False, True, True),
                 None, None, 'k<=2 over 2 literals, all spelling combinations'),
             Scn('deck-k3', b_deck([2, 1, 3], False), 3, 3, 'spelled cells through the whole converter'),
+            Scn('seam-long', b_long, 0, 1, 'expressions of 12 / 40 / 120 operands, nesting up to 60 deep'),
         ]
     return [
         Scn('seam-k2-spell3', b_seam2([1, 2], SEAM_LITS), 3, 3,
@@ -231,6 +280,7 @@ def scenarios(tier):
         Scn('seam-k2-allspell', b_seam([2, 1], [-1, 2, ('^', 8)], True, True, True),
             None, None, 'k<=2 over 3 literals incl. #( ), all spelling combinations'),
         Scn('deck-k3', b_deck([2, 1, 3], False), 3, 3, 'spelled cells through the whole converter'),
+        Scn('seam-long', b_long, 1, 1, 'expressions of 12 / 40 / 120 operands, nesting up to 60 deep'),
     ]
 
 
